@@ -308,8 +308,9 @@ def check_chunk_protocol(ctx, rule='R-SAMEVAL/chunk-protocol'):
         for n2 in cfg.nodes:
             if n2.kind == 'if' and n2.id in rd.live:
                 tt = ex.expand(n2.ast.test, n2.id)
-                if tt == ('cmp', ('GtE',), cur,
-                          (('attr', ('param', 'self'), 'n_rows'),)):
+                nrows = ('attr', ('param', 'self'), 'n_rows')
+                if tt in (('cmp', ('GtE',), cur, (nrows,)),
+                          ('cmp', ('LtE',), nrows, (cur,))):
                     okp, _p = cfg.must_pass(
                         [t for (t, lab) in cfg.succ[n2.id]
                          if lab == 'true'][0], {cfg.exit},
